@@ -6,7 +6,7 @@
 (*             (at most MaxMut in a row, at nesting depth <= MutDepth)     *)
 (*   Commit    the document becomes a frame already decoded on ONE reused  *)
 (*             decoder; the next frame is another instance (after a well-  *)
-(*             formed frame) or the unmutated instance (after a mutant)    *)
+(*             formed frame) or a well-formed instance (after a mutant)    *)
 (* and prints every distinct (type, frames, document) once (DOC lines) with*)
 (* what the reference reader expects (the reader has no memory: it expects *)
 (* the same of a document whatever was decoded before it).  One action per operator, so    *)
@@ -73,12 +73,15 @@ SessOps == {"wrongTag", "dropItem", "dupItem", "extraItem", "dropAttr", "swapAtt
 \* (so every instance occurs both before and after another one; 3n sequences instead of n * n)
 NextInsts == LET c == CHOOSE y \in Instances(ty) : TRUE IN
              IF inst = c THEN Instances(ty) ELSE {inst, c}
+\* after a mutant (usually a rejected frame): a well-formed instance other than the one the mutant was made from,
+\* so that anything the rejected frame left behind in the recognizer shows in the value
+AfterMutant == IF Instances(ty) = {inst} THEN inst ELSE CHOOSE y \in Instances(ty) \ {inst} : TRUE
 Commit == /\ ty # "" /\ Len(sess) + 1 < MaxFrames
           /\ Len(hist) <= 1 /\ (hist # <<>> => hist[1] \in SessOps)
           /\ sess' = Append(sess, doc)
           /\ IF hist = <<>>
              THEN \E y \in NextInsts : inst' = y /\ doc' = RenderKey(ty, y)
-             ELSE inst' = inst /\ doc' = RenderKey(ty, inst)
+             ELSE inst' = AfterMutant /\ doc' = RenderKey(ty, AfterMutant)
           /\ hist' = <<>>
           /\ UNCHANGED ty
 
